@@ -44,6 +44,10 @@ pub fn cases(thorough: bool, seed: u64) -> Vec<Params> {
     }
     // parameter grid and identifier-list refusals (independent of the sweep)
     for i in 0..(GRID.len() * GRID.len()) as u64 {
+        let (n, t) = (GRID[(i as usize) / GRID.len()], GRID[(i as usize) % GRID.len()]);
+        if expected_param_error(n, t).is_none() && n > 100 {
+            continue; // valid but huge: split(65535, 2) is aux 200 in the thorough tier
+        }
         out.push(Params { n: 0, t: 0, ids: IdSet::Default, subset: vec![], variant: V_PARAMS, aux: i, seed });
     }
     for k in 0..7u64 {
@@ -258,8 +262,11 @@ pub fn run<C: Ciphersuite, L: Lab<C>>(lab: &mut L, p: &Params) {
         lab.enter("reconstruct");
         let all: Vec<KeyPackage<C>> = ids.iter().map(|i| keys.0[i].clone()).collect();
         let skv = sk.or(coeffs[0]);
-        for sub in subsets(p.n as usize, t, t) {
-            let kps: Vec<KeyPackage<C>> = sub.iter().map(|i| all[*i].clone()).collect();
+        for (si, sub) in subsets(p.n as usize, t, t).into_iter().enumerate() {
+            // the slice is the caller's: handed over in a rotated order
+            let mut kps: Vec<KeyPackage<C>> = sub.iter().map(|i| all[*i].clone()).collect();
+            let by = si % kps.len().max(1);
+            kps.rotate_left(by);
             match fc::keys::reconstruct(&kps) {
                 Ok(k) => {
                     if let Some(skv) = skv {
